@@ -1037,3 +1037,66 @@ theorem dumper_output_clean_sym (env : Env) (sentinel : Nat) (hs : isCc sentinel
   · exact hint o h
 
 end MitmVerif.Props.C50
+
+/-! ### audit round 6 (b-c44): non-vacuity witnesses appended by the cross-auditor -/
+namespace MitmVerif.Props.C50
+open MitmVerif MitmVerif.C49 MitmVerif.C50 MitmVerif.C50.Codecs MitmVerif.Gen.C50
+
+/-- a message with a question and records of a decoded strict type with invalid data (A, 3 bytes), a decoded loose type
+    with valid data (TXT "hé"), AAAA with valid data and an undecoded type (99) -/
+def auditMsg : Msg :=
+  ⟨7, false, 0, true, false, true, true, 0, 3, [⟨cpsOf "a.b", 1, 1⟩],
+   [⟨cpsOf "a.b", 1, 1, 60, [1, 2, 3]⟩, ⟨cpsOf "a.b", 16, 1, 60, [0x68, 0xc3, 0xa9]⟩],
+   [⟨cpsOf "n", 28, 1, 5, [0x20, 1, 0xd, 0xb8, 0, 0, 0, 0, 0, 1, 0, 0, 0, 0, 0, 1]⟩],
+   [⟨[], 99, 1, 0, [1, 2]⟩]⟩
+
+def auditNone : Codec := ⟨fun _ _ => none, fun _ _ => none⟩
+
+private theorem auditNone_laws : CodecLaws auditNone := ⟨(by intro t b j h; cases h), (by intros; rfl)⟩
+
+/-- a (degenerate but lawful for this message) YAML: dumps to a clean text and loads the value back -/
+def auditYaml (C : Codec) : Yaml := ⟨fun _ => [100, 58, 32, 49], fun _ => some (toJson C auditMsg)⟩
+
+-- all three hypotheses of `dns_view_roundtrip_transcribed_6` hold together for a message with records of four kinds,
+-- and the conclusion is the non-trivial equation (every text codec a transcription, ASCII idna, no HTTPS):
+example : reencodeDns (auditYaml (realCodec6 asciiIdna auditNone)) (realCodec6 asciiIdna auditNone)
+    (prettifyDns (auditYaml (realCodec6 asciiIdna auditNone)) (realCodec6 asciiIdna auditNone) auditMsg) =
+      some { auditMsg with z := 0 } := by
+  apply dns_view_roundtrip_transcribed_6 (auditYaml _) asciiIdna auditNone auditNone_laws auditMsg
+  · decide +kernel
+  · rfl
+  · intro r hr
+    simp only [auditMsg, List.mem_cons, List.not_mem_nil, or_false] at hr
+    rcases hr with (rfl | rfl) | rfl | rfl <;> (unfold Representable; decide +kernel)
+
+-- the guard `Representable` separates: valid TXT data is representable, undecodable TXT data (F-C50b) is not
+example : Representable (realCodec6 asciiIdna auditNone) ⟨cpsOf "a.b", 16, 1, 60, [0x68, 0xc3, 0xa9]⟩ ∧
+    ¬ Representable (realCodec6 asciiIdna auditNone) ⟨cpsOf "a.b", 16, 1, 60, [0xff]⟩ := by
+  constructor <;> (unfold Representable; decide +kernel)
+
+-- `record_data_roundtrip_partial` on a real strict type with data the decoder rejects (A, 3 bytes): the marker path
+example :
+    let C := realCodec6 asciiIdna auditNone
+    let j := dataJson (isDecoded 1) (tyNameCps 1) [1, 2, 3] (C.dec 1 [1, 2, 3])
+    C.dec 1 [1, 2, 3] = none ∧ j = .str (cpsOf "0x010203 (invalid A data)") ∧
+      dataFromJson (isDecoded 1) (C.enc 1 j) j = some [1, 2, 3] := by decide +kernel
+
+-- `dumper_output_clean_sym`: its equations are satisfiable by an environment (unknown op code, TXT, NXDOMAIN)
+example : ∃ env : Env,
+    env.internal "dns.op_codes.to_str(f.request.op_code)" = (toStr opNames "OPCODE" 9).map Char.toNat ∧
+    env.internal "dns.types.to_str(f.request.questions[0].type)" = (toStr typeNames "TYPE" 16).map Char.toNat ∧
+    env.internal "response_codes.to_str(f.response.response_code)" = (toStr rcodeNames "RCODE" 3).map Char.toNat ∧
+    (∀ o, o ∉ symOrigins → Clean (env.internal o)) :=
+  ⟨⟨fun _ => [], fun _ => [], id, fun o =>
+      if o = "dns.op_codes.to_str(f.request.op_code)" then (toStr opNames "OPCODE" 9).map Char.toNat
+      else if o = "dns.types.to_str(f.request.questions[0].type)" then (toStr typeNames "TYPE" 16).map Char.toNat
+      else if o = "response_codes.to_str(f.response.response_code)" then (toStr rcodeNames "RCODE" 3).map Char.toNat
+      else [0x37]⟩,
+    by simp, by simp, by simp,
+    by
+      intro o ho
+      simp only [symOrigins, List.mem_cons, List.not_mem_nil, or_false, not_or] at ho
+      simp only [ho.1, ho.2.1, ho.2.2, if_false]
+      decide⟩
+
+end MitmVerif.Props.C50
